@@ -29,6 +29,9 @@ func init() {
 		"vfReach":   vfReach,
 		"vfNote":    vfNote,
 		"vfTier":    vfTier,
+		"vfSameFloat": vfSameFloat,
+		"vfGuardMap":  vfGuardMap,
+		"vfLocksHeld": vfLocksHeld,
 		"vfConc":    vfConc,
 		"vfSymbolic": func(fr *frame, a []value) value { return true },
 		"vfLive":    func(fr *frame, a []value) value { fr.i.sched.quiesce(); return fr.i.sched.live() },
@@ -135,4 +138,40 @@ func vfTier(fr *frame, a []value) value {
 // vfConc(x) forces a string to be concrete on this path (forks over its values).
 func vfConc(fr *frame, a []value) value {
 	return fr.i.concValue(a[0])
+}
+
+// vfSameFloat(x, y): float equality that treats two NaNs as equal. Two syntactically
+// identical symbolic terms are equal by construction (decided by hash-consing, no
+// floating-point solving); otherwise the comparison is a solver obligation.
+func vfSameFloat(fr *frame, a []value) value {
+	i := fr.i
+	tt := i.tt
+	x, y := i.toTerm(a[0]), i.toTerm(a[1])
+	if x == y {
+		return true
+	}
+	return fromTerm(tt.or(tt.eq(x, y), tt.and(tt.fpIsNaN(x), tt.fpIsNaN(y))), types.Bool)
+}
+
+// vfGuardMap(name, m, mu): declares that map m must only be accessed while mutex *mu is held.
+func vfGuardMap(fr *frame, a []value) value {
+	name, _ := a[0].(string)
+	m := a[1].(iface).v.(*gmap)
+	mu := a[2].(iface).v.(*value)
+	if m != nil {
+		fr.i.guards[m] = mu
+		fr.i.guardNames[m] = name
+	}
+	return nil
+}
+
+// vfLocksHeld returns the number of mutexes currently held.
+func vfLocksHeld(fr *frame, a []value) value {
+	n := 0
+	for _, st := range fr.i.locks {
+		if st != 0 {
+			n++
+		}
+	}
+	return n
 }
